@@ -308,7 +308,7 @@ def _int_type(t):
     return re.fullmatch(r'(?:unsigned\s+)?(?:int|long|size_t|Py_ssize_t|cINT|bint)', t) is not None
 
 
-HEADER_RE = re.compile(r'^(?P<ind>\s*)(?:(?P<def>def)|(?:cdef|cpdef)(?:\s+inline)?\s+(?P<ret>[\w \*]+?))\s+(?P<name>\w+)\s*\((?P<args>.*)\)\s*(?P<tail>[^:()]*):\s*$', re.S)
+HEADER_RE = re.compile(r'^(?P<ind>\s*)(?:(?P<def>def)\s+|(?:cdef|cpdef)(?:\s+inline)?\s+(?:(?P<ret>[\w ]+?)[\s\*]+)??\**)(?P<name>\w+)\s*\((?P<args>.*)\)\s*(?P<tail>[^:()]*):\s*$', re.S)
 
 
 def _join_logical(lines, i):
@@ -327,6 +327,17 @@ def _join_logical(lines, i):
         depth = upd(lines[j], depth)
         j += 1
     return txt, j
+
+
+def _subst(l2):
+    """statement-level rewrites (also applied to initialisers of cdef declarations)"""
+    l2 = re.sub(r'\bwith\s+(nogil|gil)\s*:', 'if True:', l2)
+    l2 = re.sub(r'<\s*%s\s*\**\s*>\s*malloc\((.*)\*\s*sizeof\([^)]*\)\s*\)' % CTYPES, r'_malloc(\1)', l2)
+    l2 = re.sub(r'<\s*(?:int|long)\s*>', '_toint', l2) if re.search(r'<\s*(?:int|long)\s*>\s*\(', l2) else l2
+    l2 = re.sub(r'<\s*%s\s*\**\s*>' % CTYPES, '', l2)
+    l2 = re.sub(r'&(\w+)\[([^\]]*)\]', r'_addr(\1, (\2,))', l2)
+    l2 = re.sub(r'(?<![\w\)\]&])&(\w+)\b(?!\s*\[)', r'_ref(\1)', l2)
+    return l2
 
 
 def preprocess(src, path=None, info=None):
@@ -433,17 +444,11 @@ def preprocess(src, path=None, info=None):
                 if is_int and cur_func is None:
                     info['ints'].setdefault('<module>', set()).add(d)
                 if init is not None:
-                    out.append('%s%s = %s' % (ind, d, init))
+                    out.append('%s%s = %s' % (ind, d, _subst(init)))
             i = j
             continue
         # statements
-        l2 = l
-        l2 = re.sub(r'\bwith\s+(nogil|gil)\s*:', 'if True:', l2)
-        l2 = re.sub(r'<\s*%s\s*\**\s*>\s*malloc\((.*)\*\s*sizeof\([^)]*\)\s*\)' % CTYPES, r'_malloc(\1)', l2)
-        l2 = re.sub(r'<\s*(?:int|long)\s*>', '_toint', l2) if re.search(r'<\s*(?:int|long)\s*>\s*\(', l2) else l2
-        l2 = re.sub(r'<\s*%s\s*\**\s*>' % CTYPES, '', l2)
-        l2 = re.sub(r'&(\w+)\[([^\]]*)\]', r'_addr(\1, (\2,))', l2)
-        l2 = re.sub(r'(?<![\w\)\]&])&(\w+)\b(?!\s*\[)', r'_ref(\1)', l2)
+        l2 = _subst(l)
         out.append(l2)
         i += 1
     return '\n'.join(out), info
